@@ -87,7 +87,9 @@ func (c *c19) nameSwitch(s c19Switch) {
 		}
 	}
 	if sw == nil {
-		r.Undecided("enum-cover", fkey, c.P.Rel(fd.Pos()), "no top-level `switch` on the value found: shape not recognised")
+		// not a switch any more (if-chain, table lookup, mixed): evaluate the
+		// function for every declared constant instead
+		c.nameFunction(s, ix, fd, fam, fkey)
 		return
 	}
 	ph := &c19Placeholder{}
@@ -208,6 +210,184 @@ func (c *c19) nameSwitch(s c19Switch) {
 	c.sizes[fkey] = map[string]any{"cases": len(cases), "declared_identifiers": len(fam), "miss_yields": append(append([]string{}, ph.Literals...), ph.PatText...)}
 }
 
+// nameFunction decides a name function of any shape (if-chain, lookup in a
+// constant package-level map, switch with early returns, a mix) by evaluating
+// it for every declared constant: under "value == K" (and "K is / is not a key"
+// for each table consulted, read from the table's literal rows) exactly one
+// return is reachable, and what it returns is K's name.
+func (c *c19) nameFunction(s c19Switch, ix *tables.Index, fd *ast.FuncDecl, fam []*tables.Const, fkey string) {
+	r := c.R
+	info := ix.Info()
+	pos := c.P.Rel(fd.Pos())
+	lk := tables.AnalyseLookupKey(info, fd, c.source, c19Word(info, c19Recv(info, fd), s.Field))
+	if len(lk.Problems) > 0 {
+		r.Undecided("enum-cover", fkey, pos, "neither a top-level `switch` on the value nor a lookup function: "+strings.Join(lk.Problems, "; "))
+		return
+	}
+	// tables consulted and constants compared with
+	type tab struct {
+		v    *types.Var
+		rows map[string]*tables.Row
+		tix  *tables.Index
+	}
+	tabs := map[*types.Var]*tab{}
+	var eqs []tables.Atom
+	seenEq := map[string]bool{}
+	for _, p := range lk.Paths {
+		for _, a := range tables.Atoms(p.Cond) {
+			switch a.Kind {
+			case "unknown":
+				r.Undecided("enum-cover", fkey, c.P.Rel(p.Ret.Pos()), "a return is guarded by a condition the rule cannot interpret: "+a.Text)
+				return
+			case "eq":
+				if k, _ := tables.IntKey(a.K); !seenEq[k] {
+					seenEq[k] = true
+					eqs = append(eqs, a)
+				}
+			case "found":
+				if a.Map == nil || tabs[a.Map] != nil {
+					continue
+				}
+				rel := strings.TrimPrefix(strings.TrimPrefix(a.Map.Pkg().Path(), c.P.ModPath), "/")
+				tix := c.index(rel)
+				if tix == nil {
+					r.Undecided("enum-cover", fkey, pos, "table "+a.Map.Name()+" is outside the module")
+					return
+				}
+				mt, err := tix.MapTable(a.Map.Name())
+				if err != nil {
+					r.Undecided("enum-cover", fkey, pos, err.Error())
+					return
+				}
+				t := &tab{v: a.Map, rows: map[string]*tables.Row{}, tix: tix}
+				for _, row := range mt.Rows {
+					if row.Key == "" {
+						r.Undecided("enum-cover", fmt.Sprintf("%s: %s[%s]", fkey, a.Map.Name(), row.KeyText), c.P.Rel(row.KeyExpr.Pos()), "map key is not an integer constant")
+						return
+					}
+					t.rows[row.Key] = row
+				}
+				tabs[a.Map] = t
+				c.registerTable(a.Map, fkey)
+			}
+		}
+	}
+	// eval returns what the function yields for the value with key k ("" = a value no constant / row mentions)
+	type outcome struct {
+		name    string
+		isName  bool // a constant string
+		pattern string
+		pos     string
+		why     string // non-empty: cannot decide
+	}
+	eval := func(key string) outcome {
+		var as []tables.Assume
+		for _, a := range eqs {
+			k, _ := tables.IntKey(a.K)
+			as = append(as, tables.Assume{Atom: a, Val: key != "" && k == key})
+		}
+		for _, t := range tabs {
+			as = append(as, tables.Assume{Atom: tables.FoundIn(t.v), Val: key != "" && t.rows[key] != nil})
+		}
+		var hit *tables.RetPath
+		for _, p := range lk.Paths {
+			if tables.Sat(p.Cond, as...) == tables.Yes {
+				if hit != nil && hit.Ret != p.Ret {
+					return outcome{why: "two returns are reachable for the same value"}
+				}
+				hit = p
+			}
+		}
+		if hit == nil {
+			return outcome{why: "no return is reachable"}
+		}
+		o := outcome{pos: c.P.Rel(hit.Ret.Pos())}
+		if hit.Zero {
+			o.isName = true
+			return o
+		}
+		if hit.Result == nil {
+			return outcome{why: "bare return"}
+		}
+		res := hit.Owner.ClassifyString(hit.Result)
+		switch {
+		case res.Literal != nil:
+			o.name, o.isName = *res.Literal, true
+		case res.Pattern != nil:
+			o.pattern = *res.Pattern
+		case res.FromMap != nil:
+			t := tabs[res.FromMap]
+			if t == nil || t.rows[key] == nil {
+				o.isName = true // indexing a table that has no row for the value: ""
+				return o
+			}
+			sv, ok := tables.StringConst(t.tix.Info(), t.rows[key].ValExpr)
+			if !ok {
+				return outcome{why: "the table row's name is not a constant string"}
+			}
+			// a Sprintf wrapper around the looked-up name keeps names distinct and non-empty
+			o.name, o.isName = sv, true
+		default:
+			return outcome{why: "cannot classify the result `" + res.Other + "`"}
+		}
+		return o
+	}
+	ph := &c19Placeholder{}
+	miss := eval("")
+	switch {
+	case miss.why != "":
+		r.Undecided("enum-cover", fkey+" miss", pos, "what an undeclared value yields: "+miss.why)
+		return
+	case miss.isName:
+		ph.Literals = append(ph.Literals, miss.name)
+	default:
+		if re := formatToRegexp(miss.pattern); re != nil {
+			ph.Patterns = append(ph.Patterns, re)
+			ph.PatText = append(ph.PatText, miss.pattern)
+		}
+	}
+	seen := map[string]string{}
+	done := map[string]bool{}
+	n := 0
+	for _, k := range fam {
+		con := fmt.Sprintf("%s case %s", fkey, k.Name)
+		o := eval(k.Key)
+		kpos := c.P.Rel(k.Pos)
+		if o.why != "" {
+			r.Undecided("enum-cover", con, kpos, o.why)
+			continue
+		}
+		if !o.isName {
+			r.Fail("enum-cover", con, kpos, fmt.Sprintf("declared constant %s (= %s) gets the formatted placeholder %q from %s: it is indistinguishable from an undeclared value", k.Name, tables.Hex(k.Val), o.pattern, fkey))
+			continue
+		}
+		if why := ph.matches(o.name); why != "" && miss.pos == o.pos {
+			r.Fail("enum-cover", con, kpos, fmt.Sprintf("declared constant %s (= %s) is not named by %s: it gets what a miss yields (%q %q), so it is indistinguishable from an undeclared value", k.Name, tables.Hex(k.Val), fkey, ph.Literals, ph.PatText))
+			continue
+		}
+		r.OK("enum-cover", con, kpos, "value "+tables.Hex(k.Val)+" is named")
+		if done[k.Key] {
+			continue // an alias of a value already decided
+		}
+		done[k.Key] = true
+		n++
+		ncon := con + " name"
+		switch {
+		case strings.TrimSpace(o.name) == "":
+			r.Fail("enum-name", ncon, o.pos, "the name of "+k.Name+" is empty")
+		case ph.matches(o.name) != "":
+			r.Fail("enum-name", ncon, o.pos, fmt.Sprintf("the name %q of %s is %s", o.name, k.Name, strings.Replace(ph.matches(o.name), "String()", "the function", 1)))
+		case seen[o.name] != "":
+			r.Fail("enum-name", ncon, o.pos, fmt.Sprintf("duplicate name %q: %s and %s are indistinguishable", o.name, seen[o.name], k.Name))
+		default:
+			seen[o.name] = k.Name
+			r.OK("enum-name", ncon, o.pos, "non-empty, not the placeholder, unique")
+		}
+	}
+	c.sizes[fkey] = map[string]any{"cases": n, "declared_identifiers": len(fam), "shape": "evaluated per constant (no top-level switch)",
+		"miss_yields": append(append([]string{}, ph.Literals...), ph.PatText...)}
+}
+
 // ---------------------------------------------------------------- NT_STATUS.Error
 
 func (c *c19) ntError() {
@@ -227,80 +407,185 @@ func (c *c19) ntError() {
 		return
 	}
 	info := ix.Info()
-	lk := tables.AnalyseLookup(info, fd)
+	lk := tables.AnalyseLookupWith(info, fd, c.source)
 	if len(lk.Problems) > 0 {
 		r.Undecided("nt-error", fkey, c.P.Rel(fd.Pos()), "shape not recognised: "+strings.Join(lk.Problems, "; "))
 		return
 	}
-	success := constant.ToInt(sc.Val())
+	// Every control path of Error() is enumerated with its exact guard. A
+	// declared non-success status that has a row satisfies
+	//     recv ∈ NTStatusToGoErrorMap  ∧  recv ≠ NT_STATUS_SUCCESS.
+	// The rule decides, by evaluating the guards under that assumption (both
+	// polarities, ||, &&, De Morgan, switch arms, accumulators), that no `nil`
+	// return is reachable and that every other return is a fmt.Errorf that prints
+	// the receiver numerically. The paths partition the state space, so this is
+	// "non-nil, mentions the code" for every such status whatever the spelling.
+	declared := []tables.Assume{{Atom: tables.FoundIn(m), Val: true}, {Atom: tables.RecvIs(sc.Val()), Val: false}}
 	foundNonNil := 0
+	seenCon := map[string]int{}
 	for _, p := range lk.Paths {
 		pos := c.P.Rel(p.Ret.Pos())
-		if p.Result == nil {
+		if p.Result == nil && !p.Zero {
 			r.Undecided("nt-error", fkey+": return", pos, "bare return")
 			continue
 		}
-		con := fkey + ": return " + types.ExprString(p.Result)
-		if t, ok := p.HasUnknown(); ok {
-			r.Undecided("nt-error", con, pos, "guarded by a condition the rule cannot interpret: "+t)
+		what := "the zero value of the result"
+		if p.Result != nil {
+			what = types.ExprString(p.Result)
+		}
+		con := fkey + ": return " + what
+		seenCon[con]++
+		if n := seenCon[con]; n > 1 {
+			con = fmt.Sprintf("%s (path %d)", con, n)
+		}
+		reach := tables.Sat(p.Cond)
+		if reach == tables.No {
+			r.OK("nt-error", con, pos, "unreachable: its guard "+p.Cond.String()+" is contradictory")
 			continue
 		}
-		if tv, ok := info.Types[p.Result]; ok && tv.IsNil() {
-			okSuccess := p.Has("eq", false, func(a tables.Atom) bool { return constant.Compare(a.K, token.EQL, success) })
-			okMissing := p.Has("found", true, func(a tables.Atom) bool { return a.Map == m })
-			if okSuccess || okMissing {
-				r.OK("nt-error", con, pos, "nil only for the success value / a status absent from the table")
-			} else {
-				r.Fail("nt-error", con, pos, "Error() can return nil for a non-success status that is present in NTStatusToGoErrorMap")
+		under := tables.Sat(p.Cond, declared...)
+		info, lk := p.Owner.Info, p.Owner // the function the return belongs to (Error itself or a helper it tail-calls)
+		isNil := p.Zero
+		if !isNil {
+			if tv, ok := info.Types[p.Result]; ok && tv.IsNil() {
+				isNil = true
 			}
+		}
+		if isNil {
+			switch under {
+			case tables.No:
+				r.OK("nt-error", con, pos, "nil only for the success value / a status absent from the table (guard "+p.Cond.String()+")")
+			case tables.Yes:
+				r.Fail("nt-error", con, pos, "Error() can return nil for a non-success status that is present in NTStatusToGoErrorMap (guard "+p.Cond.String()+")")
+			default:
+				t, _ := p.UnknownAtom()
+				r.Undecided("nt-error", con, pos, "guarded by a condition the rule cannot interpret: "+t)
+			}
+			continue
+		}
+		if under == tables.No {
+			// only reached for the success value or a status without row: whatever it returns is outside the property
+			r.OK("nt-error", con, pos, "not reachable for a declared non-success status (guard "+p.Cond.String()+")")
 			continue
 		}
 		call, ok := ast.Unparen(p.Result).(*ast.CallExpr)
-		if !ok || !tables.IsPkgFunc(tables.StaticCallee(info, call), "fmt", "Errorf") {
-			if id, isId := ast.Unparen(p.Result).(*ast.Ident); isId && lk.ValVars[info.Uses[id]] != nil {
+		ctor := ""
+		if ok {
+			switch fn := tables.StaticCallee(info, call); {
+			case tables.IsPkgFunc(fn, "fmt", "Errorf"):
+				ctor = "fmt.Errorf"
+			case tables.IsPkgFunc(fn, "errors", "New"):
+				ctor = "errors.New"
+			}
+		}
+		if ctor == "" {
+			if lk.ValVars[c19UseOf(info, p.Result)] != nil || lk.MapIndexOfRecv(p.Result) != nil {
 				r.Fail("nt-error", con, pos, "Error() returns the table's error unchanged: the message does not mention the numeric status code")
 			} else {
-				r.Undecided("nt-error", con, pos, "non-nil result is not a fmt.Errorf call: cannot decide that the numeric code is mentioned")
+				r.Undecided("nt-error", con, pos, "non-nil result is not a fmt.Errorf / errors.New call: cannot decide that it is non-nil and mentions the numeric code")
 			}
 			continue
 		}
-		format, ok := tables.StringConst(info, call.Args[0])
-		if !ok {
-			r.Undecided("nt-error", con, pos, "format is not a constant")
-			continue
-		}
-		mention := ""
-		for _, v := range tables.ParseFormat(format) {
-			if v.Arg+1 >= len(call.Args) {
-				continue
-			}
-			arg := call.Args[v.Arg+1]
-			if !c19IsRecvNumeric(info, lk.Recv, arg) {
-				continue
-			}
-			t := info.Types[arg].Type
-			diverted := tables.HasStringMethod(t)
-			switch v.Verb {
-			case 'd', 'o', 'b', 'O':
-				mention = fmt.Sprintf("%%%s%c of %s", v.Flags, v.Verb, types.ExprString(arg))
-			case 'x', 'X', 'v':
-				if !diverted {
-					mention = fmt.Sprintf("%%%s%c of %s", v.Flags, v.Verb, types.ExprString(arg))
-				}
-			}
-		}
+		mention, why := c19MentionsCode(info, lk.Recv, p.Result, 0)
 		if mention == "" {
-			r.Fail("nt-error", con, pos, fmt.Sprintf("the message %q has no numeric verb (%%d, %%x, … not diverted to String()) applied to the receiver: the error does not mention the status code", format))
+			if why != "" {
+				r.Undecided("nt-error", con, pos, why)
+			} else {
+				r.Fail("nt-error", con, pos, fmt.Sprintf("the message built by `%s` applies no numeric verb or conversion (%%d, %%x, strconv.FormatUint, … not diverted to String()) to the receiver: the error does not mention the status code", types.ExprString(p.Result)))
+			}
 			continue
 		}
-		if p.Has("found", false, func(a tables.Atom) bool { return a.Map == m }) {
-			foundNonNil++
-		}
-		r.OK("nt-error", con, pos, "fmt.Errorf (never nil) with "+mention)
+		foundNonNil++
+		r.OK("nt-error", con, pos, ctor+" (never nil) with "+mention)
 	}
 	if foundNonNil == 0 {
 		r.Fail("nt-error", fkey+": found branch", c.P.Rel(fd.Pos()), "no return under a successful lookup in NTStatusToGoErrorMap yields a non-nil error")
 	}
+}
+
+// c19UseOf returns the object an identifier expression uses (nil otherwise).
+func c19UseOf(info *types.Info, e ast.Expr) types.Object {
+	if id, ok := ast.Unparen(e).(*ast.Ident); ok {
+		return info.Uses[id]
+	}
+	return nil
+}
+
+// c19MentionsCode decides that the text built by e contains the receiver
+// printed as a number: a numeric fmt verb (or %x/%v when the operand's type has
+// no String/Error/Format method to divert it) applied to the receiver or an
+// integer conversion of it, strconv.Itoa/FormatInt/FormatUint of it, through
+// fmt.Errorf / fmt.Sprintf / errors.New / fmt.Sprint and string concatenation.
+// why is non-empty when the text cannot be interpreted (as opposed to "no").
+func c19MentionsCode(info *types.Info, recv types.Object, e ast.Expr, depth int) (mention, why string) {
+	e = ast.Unparen(e)
+	if depth > 6 {
+		return "", ""
+	}
+	switch e := e.(type) {
+	case *ast.BinaryExpr:
+		if e.Op == token.ADD {
+			for _, x := range []ast.Expr{e.X, e.Y} {
+				if m, w := c19MentionsCode(info, recv, x, depth+1); m != "" {
+					return m, ""
+				} else if w != "" {
+					why = w
+				}
+			}
+		}
+		return "", why
+	case *ast.CallExpr:
+		fn := tables.StaticCallee(info, e)
+		switch {
+		case tables.IsPkgFunc(fn, "fmt", "Errorf", "Sprintf"):
+			if len(e.Args) == 0 {
+				return "", ""
+			}
+			format, ok := tables.StringConst(info, e.Args[0])
+			if !ok {
+				return "", "format is not a constant"
+			}
+			for _, v := range tables.ParseFormat(format) {
+				if v.Arg+1 >= len(e.Args) || v.Arg < 0 {
+					continue
+				}
+				arg := e.Args[v.Arg+1]
+				if c19IsRecvNumeric(info, recv, arg) {
+					diverted := tables.HasStringMethod(info.Types[arg].Type)
+					switch v.Verb {
+					case 'd', 'o', 'b', 'O':
+						return fmt.Sprintf("%%%s%c of %s", v.Flags, v.Verb, types.ExprString(arg)), ""
+					case 'x', 'X', 'v':
+						if !diverted {
+							return fmt.Sprintf("%%%s%c of %s", v.Flags, v.Verb, types.ExprString(arg)), ""
+						}
+					}
+					continue
+				}
+				if v.Verb == 's' || v.Verb == 'v' || v.Verb == 'q' {
+					if m, _ := c19MentionsCode(info, recv, arg, depth+1); m != "" {
+						return m, ""
+					}
+				}
+			}
+			return "", ""
+		case tables.IsPkgFunc(fn, "errors", "New"):
+			if len(e.Args) == 1 {
+				return c19MentionsCode(info, recv, e.Args[0], depth+1)
+			}
+		case tables.IsPkgFunc(fn, "strconv", "Itoa", "FormatInt", "FormatUint"):
+			if len(e.Args) >= 1 && c19IsRecvNumeric(info, recv, e.Args[0]) {
+				return "strconv." + fn.Name() + " of " + types.ExprString(e.Args[0]), ""
+			}
+		case tables.IsPkgFunc(fn, "fmt", "Sprint", "Sprintln"):
+			for _, arg := range e.Args {
+				if c19IsRecvNumeric(info, recv, arg) && !tables.HasStringMethod(info.Types[arg].Type) {
+					return "fmt." + fn.Name() + " of " + types.ExprString(arg), ""
+				}
+			}
+		}
+	}
+	return "", ""
 }
 
 // c19IsRecvNumeric: e is the receiver, or an integer conversion of it.
@@ -369,18 +654,28 @@ func (c *c19) family(f c19Flags) {
 	}
 	finfo := map[string]any{"constants": len(fam), "bits": len(bits), "prefix": prefix}
 
-	newEval := func(fd *ast.FuncDecl) *tables.Evaluator {
+	var evals []*tables.Evaluator
+	defer func() {
+		// every constant table consulted while deciding this family must be proven constant
+		for _, ev := range evals {
+			for tv := range ev.Tables {
+				c.registerTable(tv, fkey)
+			}
+		}
+	}()
+	newEval := func(fd *ast.FuncDecl) (ev *tables.Evaluator) {
+		defer func() { evals = append(evals, ev) }()
 		return &tables.Evaluator{Info: info, IsWord: c19Word(info, c19Recv(info, fd), f.Field), Env: map[types.Object]tables.Sym{},
-			Defs: tables.SingleDefs(info, fd.Body), Source: c.source}
+			Defs: tables.SingleDefs(info, fd.Body), OkDefs: tables.CommaOkDefs(info, fd.Body), Source: c.source, Vars: c.varSource, Tables: map[*types.Var]bool{}}
 	}
 
-	// ---- straight-line decomposers
-	for _, name := range f.Decomposers {
+	// ---- straight-line decomposers (if-chains, loops over constant tables)
+	straight := func(name string) {
 		dkey := fmt.Sprintf("(%s.%s).%s", f.Pkg, f.Type, name)
 		_, fd := ix.Method(f.Type, name)
 		if fd == nil || fd.Body == nil {
 			r.Undecided("flag-decomp", dkey, "", "anchor decomposer does not resolve")
-			continue
+			return
 		}
 		c.decomps[fd] = true
 		ev := newEval(fd)
@@ -391,6 +686,9 @@ func (c *c19) family(f c19Flags) {
 		for _, bt := range d.Tests {
 			pos := c.P.Rel(bt.If.Pos())
 			con := fmt.Sprintf("%s: if %s", dkey, types.ExprString(bt.If.Cond))
+			if bt.Row != "" {
+				con += " [" + bt.Row + "]"
+			}
 			if bt.Err != nil {
 				if bt.Err.Undecided {
 					r.Undecided("flag-decomp", con, pos, "cannot interpret the bit test: "+bt.Err.Error())
@@ -415,13 +713,26 @@ func (c *c19) family(f c19Flags) {
 				continue
 			}
 			tested[mk]++
+			if len(bt.Under) > 0 {
+				r.Undecided("flag-decomp", con, pos, "the test only runs under a condition the rule does not interpret: "+strings.Join(bt.Under, "; "))
+				continue
+			}
+			// a decomposer into flag VALUES appends the tested constant itself
+			selfValue := len(bt.Names) == 0 && len(bt.Values) == 1 && constant.Compare(bt.Values[0], token.EQL, t.Mask)
 			switch {
 			case !t.Set:
 				r.Fail("flag-decomp", con, pos, "a name is reported when the bit "+k.Name+" is CLEAR")
 			case bt.HasElse:
 				r.Undecided("flag-decomp", con, pos, "the test has an else branch")
-			case bt.Other != 0 || len(bt.Appended) != 0 || len(bt.Names) != 1:
-				r.Undecided("flag-decomp", con, pos, fmt.Sprintf("the body does not append exactly one constant name (names %q, %d other statements)", bt.Names, bt.Other))
+			case selfValue && bt.Other == 0 && len(bt.Appended) == 0:
+				for _, a := range bt.Acc {
+					acc[a] = true
+				}
+				r.OK("flag-decomp", con, pos, fmt.Sprintf("%s ⇒ the constant itself", k.Name))
+			case len(bt.Names) == 0 && len(bt.Values) == 1 && bt.Other == 0 && len(bt.Appended) == 0:
+				r.Fail("flag-decomp", con, pos, fmt.Sprintf("bit %s is reported as the value %s, which is not the tested bit", k.Name, tables.Hex(bt.Values[0])))
+			case bt.Other != 0 || len(bt.Appended) != 0 || len(bt.Values) != 0 || len(bt.Names) != 1:
+				r.Undecided("flag-decomp", con, pos, fmt.Sprintf("the body does not append exactly one constant name (names %q, %d other statements)", bt.Names, bt.Other+len(bt.Values)+len(bt.Appended)))
 			case strings.TrimSpace(bt.Names[0]) == "":
 				r.Fail("flag-decomp", con, pos, "the name reported for "+k.Name+" is empty")
 			case c19In(d.Placeholders, bt.Names[0]):
@@ -455,10 +766,51 @@ func (c *c19) family(f c19Flags) {
 		if len(acc) > 1 {
 			r.Undecided("flag-decomp", dkey+": accumulator", c.P.Rel(fd.Pos()), fmt.Sprintf("names are appended to several accumulators %v", c19Keys(acc)))
 		}
-		if len(tables.MapRanges(info, fd.Body)) == 0 {
-			r.OK("order", dkey, c.P.Rel(fd.Pos()), "no map iteration: names are reported in source order of the tests")
+		for _, p := range d.Problems {
+			r.Undecided("flag-decomp", dkey+": control flow", c.P.Rel(p.Pos), p.Msg)
 		}
-		finfo["decomposer "+name] = map[string]any{"tests": len(d.Tests), "placeholder": d.Placeholders}
+		// loops: a loop the rule could not resolve to rows leaves its tests
+		// undecided above; a resolved one visits its rows in index order
+		// (array / slice / counter) or in map order (decided by `order`).
+		var how []string
+		for _, u := range d.Loops {
+			lpos := c.P.Rel(u.Stmt.Pos())
+			lcon := fmt.Sprintf("%s: loop at %s", dkey, c19LoopHead(u.Stmt))
+			switch {
+			case u.Why != "":
+				if c19MentionsWord(ev, u.Stmt) {
+					r.Undecided("flag-decomp", lcon, lpos, "a loop that tests the flag word cannot be resolved to the rows of a constant table: "+u.Why)
+				}
+			case u.Kind == "map":
+				how = append(how, fmt.Sprintf("%d rows of map %s (iteration order decided separately)", u.N, u.Table.Name))
+			case u.Table != nil:
+				how = append(how, fmt.Sprintf("%d rows of %s in index order", u.N, u.Table.Name))
+			default:
+				how = append(how, fmt.Sprintf("%d iterations of a counting loop", u.N))
+			}
+		}
+		for tv := range ev.Tables {
+			c.registerTable(tv, dkey)
+		}
+		mapRanges := len(tables.MapRanges(info, fd.Body))
+		for _, h := range d.Helpers {
+			c.decomps[h] = true // map iterations inside a helper are decided by `order` like the decomposer's own
+			if _, hinfo := c.sourceOfDecl(h); hinfo != nil {
+				mapRanges += len(tables.MapRanges(hinfo, h.Body))
+			}
+			how = append(how, "tests in helper "+h.Name.Name)
+		}
+		if mapRanges == 0 {
+			msg := "no map iteration: names are reported in source order of the tests"
+			if len(how) > 0 {
+				msg = "no map iteration: names are reported in row order of a constant table (" + strings.Join(how, "; ") + ")"
+			}
+			r.OK("order", dkey, c.P.Rel(fd.Pos()), msg)
+		}
+		finfo["decomposer "+name] = map[string]any{"tests": len(d.Tests), "placeholder": d.Placeholders, "loops": how}
+	}
+	for _, name := range f.Decomposers {
+		straight(name)
 	}
 
 	// ---- decomposers that iterate the name table
@@ -497,8 +849,13 @@ func (c *c19) family(f c19Flags) {
 				}
 			}
 			con := fmt.Sprintf("%s: range %s", dkey, f.RangeTable)
+			// The symbolic argument below ("for every row: word&key != 0 ⇒ append")
+			// covers the plain shape. Any other shape (no range over the map any
+			// more, a negated guard with `continue`, a sorted key list, a bit walk,
+			// extra statements) is decided like every other decomposer: the rows of
+			// the constant table are resolved statically and each is decided on its own.
 			if len(loops) != 1 {
-				r.Undecided("flag-decomp", con, c.P.Rel(fd.Pos()), fmt.Sprintf("%d iterations over %s found, expected one", len(loops), f.RangeTable))
+				straight(name)
 				continue
 			}
 			rs := loops[0]
@@ -511,17 +868,17 @@ func (c *c19) family(f c19Flags) {
 				valObj = info.Defs[id]
 			}
 			if keyObj == nil {
-				r.Undecided("flag-decomp", con, pos, "the range statement does not define a key variable")
+				straight(name)
 				continue
 			}
 			ev := newEval(fd)
 			ev.Env[keyObj] = tables.SKey{Obj: keyObj}
 			d := ev.CollectBitTests(rs.Body)
 			switch {
-			case len(d.Tests) != 1 || len(rs.Body.List) != 1:
-				r.Undecided("flag-decomp", con, pos, fmt.Sprintf("the loop body is not a single bit test (%d tests, %d statements)", len(d.Tests), len(rs.Body.List)))
+			case len(d.Tests) != 1 || len(rs.Body.List) != 1 || d.Tests[0].Guard || len(d.Problems) > 0 || len(d.Tests[0].Under) > 0:
+				straight(name)
 			case d.Tests[0].Err != nil && d.Tests[0].Err.Undecided:
-				r.Undecided("flag-decomp", con, pos, "cannot interpret the bit test: "+d.Tests[0].Err.Error())
+				straight(name)
 			case d.Tests[0].Err != nil:
 				r.Fail("flag-decomp", con, pos, "the condition does not test the key against itself: "+d.Tests[0].Err.Error())
 			case d.Tests[0].Test.KeyObj != keyObj:
@@ -529,7 +886,7 @@ func (c *c19) family(f c19Flags) {
 			case !d.Tests[0].Test.Set:
 				r.Fail("flag-decomp", con, pos, "a flag is reported when its bit is CLEAR")
 			case d.Tests[0].HasElse || d.Tests[0].Other != 0 || len(d.Tests[0].Names) != 0 || len(d.Tests[0].Appended) != 1:
-				r.Undecided("flag-decomp", con, pos, "the test body does not append exactly the key or the value")
+				straight(name)
 			case d.Tests[0].Appended[0] != keyObj && d.Tests[0].Appended[0] != valObj:
 				r.Fail("flag-decomp", con, pos, "the test appends "+d.Tests[0].Appended[0].Name()+", which is neither the key nor the value of the tested row")
 			default:
@@ -625,6 +982,81 @@ func (c *c19) family(f c19Flags) {
 		}
 	}
 	c.sizes["family "+fkey] = finfo
+}
+
+// c19LoopHead renders the header of a loop statement (construct text: no line numbers).
+func c19LoopHead(s ast.Stmt) string {
+	switch s := s.(type) {
+	case *ast.RangeStmt:
+		out := "for "
+		if s.Key != nil {
+			out += types.ExprString(s.Key)
+			if s.Value != nil {
+				out += ", " + types.ExprString(s.Value)
+			}
+			out += " " + s.Tok.String() + " "
+		}
+		return out + "range " + types.ExprString(s.X)
+	case *ast.ForStmt:
+		if s.Cond != nil {
+			return "for …; " + types.ExprString(s.Cond) + "; …"
+		}
+		return "for"
+	}
+	return fmt.Sprintf("%T", s)
+}
+
+// c19MentionsWord reports whether the flag word occurs inside n.
+func c19MentionsWord(ev *tables.Evaluator, n ast.Node) bool {
+	found := false
+	ast.Inspect(n, func(x ast.Node) bool {
+		if e, ok := x.(ast.Expr); ok && ev.IsWord != nil && ev.IsWord(e) {
+			found = true
+		}
+		return !found
+	})
+	return found
+}
+
+// sourceOfDecl finds the type information a function declaration was checked with.
+func (c *c19) sourceOfDecl(fd *ast.FuncDecl) (*ast.FuncDecl, *types.Info) {
+	for _, pk := range c.P.Pkgs {
+		if o := pk.TypesInfo.Defs[fd.Name]; o != nil {
+			return fd, pk.TypesInfo
+		}
+	}
+	return nil, nil
+}
+
+// varSource gives the initialiser of a package-level variable of the module.
+func (c *c19) varSource(v *types.Var) (ast.Expr, *types.Info) {
+	if v.Pkg() == nil || !strings.HasPrefix(v.Pkg().Path(), c.P.ModPath) {
+		return nil, nil
+	}
+	ix := c.index(strings.TrimPrefix(strings.TrimPrefix(v.Pkg().Path(), c.P.ModPath), "/"))
+	if ix == nil {
+		return nil, nil
+	}
+	return ix.VarInit(v), ix.Info()
+}
+
+// registerTable adds a table a decomposer was resolved through to the set of
+// name tables, so that table-const proves its literal rows are its run-time rows.
+func (c *c19) registerTable(v *types.Var, user string) {
+	if _, ok := c.tabs[v]; ok {
+		return
+	}
+	name := v.Name()
+	if v.Pkg() != nil {
+		rel := strings.TrimPrefix(strings.TrimPrefix(v.Pkg().Path(), c.P.ModPath), "/")
+		if v.Parent() == v.Pkg().Scope() {
+			name = rel + "." + v.Name()
+		} else {
+			name = user + ": local table " + v.Name()
+		}
+	}
+	c.tabs[v] = name
+	c.tabPos[v] = c.P.Rel(v.Pos())
 }
 
 func c19In(l []string, s string) bool {
@@ -728,7 +1160,7 @@ func (c *c19) tableConst() {
 			for _, id := range ids {
 				v := pk.TypesInfo.Uses[id].(*types.Var)
 				path, _ := astutil.PathEnclosingInterval(file, id.Pos(), id.End())
-				kind := c19ClassifyUse(pk, id, path)
+				kind := c.classifyUse(pk.TypesInfo, id, path, 0)
 				where := rel
 				for _, n := range path {
 					if fd, ok := n.(*ast.FuncDecl); ok {
@@ -763,7 +1195,86 @@ func (c *c19) tableConst() {
 	}
 }
 
-func c19ClassifyUse(pk *packages.Package, id *ast.Ident, path []ast.Node) string {
+// c19PathTo returns the chain of nodes from target up to root (innermost first).
+func c19PathTo(root, target ast.Node) []ast.Node {
+	var stack, out []ast.Node
+	ast.Inspect(root, func(n ast.Node) bool {
+		if out != nil {
+			return false
+		}
+		if n == nil {
+			stack = stack[:len(stack)-1]
+			return true
+		}
+		stack = append(stack, n)
+		if n == target {
+			for i := len(stack) - 1; i >= 0; i-- {
+				out = append(out, stack[i])
+			}
+			return false
+		}
+		return true
+	})
+	return out
+}
+
+// paramOnlyRead decides that the module function called by call only reads
+// the table it receives as argument number argIdx (-1: as receiver).
+func (c *c19) paramOnlyRead(info *types.Info, call *ast.CallExpr, argIdx int, depth int) (string, bool) {
+	if depth >= 2 {
+		return "", false
+	}
+	fun := call.Fun
+	if ix, ok := ast.Unparen(fun).(*ast.IndexExpr); ok {
+		fun = ix.X
+	}
+	if ix, ok := ast.Unparen(fun).(*ast.IndexListExpr); ok {
+		fun = ix.X
+	}
+	fn := tables.StaticCallee(info, &ast.CallExpr{Fun: fun})
+	if fn == nil {
+		return "", false
+	}
+	sig, ok := fn.Type().(*types.Signature)
+	if !ok || sig.Variadic() {
+		return "", false
+	}
+	fd, finfo := c.source(fn)
+	if fd == nil || fd.Body == nil || finfo == nil {
+		return "", false
+	}
+	var param types.Object
+	i := 0
+	for _, f := range fd.Type.Params.List {
+		for _, n := range f.Names {
+			if i == argIdx {
+				param = finfo.Defs[n]
+			}
+			i++
+		}
+	}
+	if param == nil {
+		return "", false
+	}
+	bad := ""
+	ast.Inspect(fd.Body, func(n ast.Node) bool {
+		id, ok := n.(*ast.Ident)
+		if !ok || finfo.Uses[id] != param || bad != "" {
+			return bad == ""
+		}
+		if k := c.classifyUse(finfo, id, c19PathTo(fd, id), depth+1); k != "read" {
+			bad = k + " in " + fd.Name.Name
+		}
+		return true
+	})
+	if bad != "" {
+		return bad, false
+	}
+	return "", true
+}
+
+func (c *c19) classifyUse(info *types.Info, id *ast.Ident, path []ast.Node, depth int) string {
+	pk := &packages.Package{TypesInfo: info}
 	// path[0] is the identifier; climb over a qualifying selector and parentheses
 	i := 1
 	var cur ast.Node = id
@@ -784,18 +1295,38 @@ func c19ClassifyUse(pk *packages.Package, id *ast.Ident, path []ast.Node) string
 	if i >= len(path) {
 		return "unclassified use"
 	}
+	// a field of a struct-valued table / row copy: T.f is an element like T[i]
+	if sel, ok := path[i].(*ast.SelectorExpr); ok && sel.X == cur {
+		if fv, ok := info.Uses[sel.Sel].(*types.Var); !ok || !fv.IsField() {
+			return "method value or call on the table"
+		}
+	}
 	switch p := path[i].(type) {
-	case *ast.IndexExpr:
-		if p.X != cur {
+	case *ast.IndexExpr, *ast.SelectorExpr:
+		if ix, ok := p.(*ast.IndexExpr); ok && ix.X != cur {
 			return "read" // used as an index of something else
 		}
+		// climb to the outermost l-value built on the element: T[i], T[i].f, T[i].f[j] …
 		var ie ast.Node = p
 		j := i + 1
 		for j < len(path) {
-			if pe, ok := path[j].(*ast.ParenExpr); ok {
+			switch pe := path[j].(type) {
+			case *ast.ParenExpr:
 				ie = pe
 				j++
 				continue
+			case *ast.SelectorExpr:
+				if pe.X == ie {
+					ie = pe
+					j++
+					continue
+				}
+			case *ast.IndexExpr:
+				if pe.X == ie {
+					ie = pe
+					j++
+					continue
+				}
 			}
 			break
 		}
@@ -813,9 +1344,56 @@ func c19ClassifyUse(pk *packages.Package, id *ast.Ident, path []ast.Node) string
 				if g.Op == token.AND {
 					return "element address taken"
 				}
+			case *ast.RangeStmt:
+				if g.Key == ie || g.Value == ie {
+					return "element written"
+				}
+			case *ast.SliceExpr:
+				if g.X == ie {
+					return "element sliced (aliased)"
+				}
+			case *ast.CallExpr:
+				// a method with pointer receiver called on an addressable element
+				if sel, ok := ie.(*ast.SelectorExpr); ok && g.Fun == ast.Expr(sel) {
+					if fn, ok := pk.TypesInfo.Uses[sel.Sel].(*types.Func); ok {
+						if sig, ok := fn.Type().(*types.Signature); ok && sig.Recv() != nil {
+							if _, ptr := sig.Recv().Type().(*types.Pointer); ptr {
+								return "pointer method called on an element"
+							}
+						}
+					}
+				}
 			}
 		}
 		return "read"
+	case *ast.SliceExpr:
+		if p.X == cur && i+1 < len(path) {
+			switch g := path[i+1].(type) {
+			case *ast.RangeStmt:
+				if g.X == ast.Expr(p) {
+					return "read"
+				}
+			case *ast.CallExpr:
+				if fid, ok := ast.Unparen(g.Fun).(*ast.Ident); ok {
+					if b, ok := pk.TypesInfo.Uses[fid].(*types.Builtin); ok && (b.Name() == "len" || b.Name() == "cap") {
+						return "read"
+					}
+				}
+				for ai, a := range g.Args {
+					if a == ast.Expr(p) {
+						if why, ok := c.paramOnlyRead(info, g, ai, depth); ok {
+							return "read"
+						} else if why != "" {
+							return "sliced and passed to a call: " + why
+						}
+					}
+				}
+			}
+			return "sliced (aliased)"
+		}
+		if p.X != cur {
+			return "read" // used as a bound of a slice expression
+		}
 	case *ast.RangeStmt:
 		if p.X == cur {
 			return "read"
@@ -825,10 +1403,40 @@ func c19ClassifyUse(pk *packages.Package, id *ast.Ident, path []ast.Node) string
 		if fid, ok := ast.Unparen(p.Fun).(*ast.Ident); ok {
 			if b, ok := pk.TypesInfo.Uses[fid].(*types.Builtin); ok {
 				switch b.Name() {
-				case "len":
+				case "len", "cap":
 					return "read"
 				case "delete", "clear":
 					return "rows removed by " + b.Name()
+				}
+			}
+		}
+		// standard-library functions that only read their operand (and do not retain it)
+		if fn := tables.StaticCallee(info, p); tables.IsPkgFunc(fn, "maps", "Clone") ||
+			tables.IsPkgFunc(fn, "slices", "Contains", "ContainsFunc", "Index", "IndexFunc", "Clone", "Equal", "BinarySearch", "BinarySearchFunc") {
+			return "read"
+		} else if tables.IsPkgFunc(fn, "maps", "Keys", "Values") {
+			// an iterator over the table: only as the operand of slices.Sorted (deterministic order)
+			j := i + 1
+			for j < len(path) {
+				if _, ok := path[j].(*ast.ParenExpr); !ok {
+					break
+				}
+				j++
+			}
+			if j < len(path) {
+				if outer, ok := path[j].(*ast.CallExpr); ok && tables.IsPkgFunc(tables.StaticCallee(info, outer), "slices", "Sorted") {
+					return "read"
+				}
+			}
+			return "iterated through " + fn.FullName() + " in map order"
+		}
+		// handed to a module function that only reads it (a shared lookup / decompose helper)
+		for ai, a := range p.Args {
+			if ast.Node(a) == cur {
+				if why, ok := c.paramOnlyRead(info, p, ai, depth); ok {
+					return "read"
+				} else if why != "" {
+					return "passed to a call: " + why
 				}
 			}
 		}
